@@ -1,11 +1,31 @@
 #pragma once
 #include <cstddef>
-#include <initializer_list>
 #include <sys/types.h>
-namespace pybind11 { using ssize_t = ::ssize_t; struct module_ { template<class...A> void def(A...){} };
- struct gil_scoped_release{};
- struct array { enum {c_style=1, forcecast=2}; };
- template<class T,int F> struct array_t { array_t(){}; template<class L> array_t(std::initializer_list<L>){}; ssize_t shape(int) const {return 0;}
-   template<int N> struct U { template<class...I> const T* data(I...) const {return nullptr;} template<class...I> T& operator()(I...) { static T t; return t;} };
-   template<int N> U<N> unchecked() const {return U<N>();} template<int N> U<N> mutable_unchecked() {return U<N>();} };
+// Stand-in for the two pybind11 headers molli_xt includes (pybind11 itself is not installed in the sandbox): just enough of array_t for
+// the distance kernels.  array_t models a C-contiguous array -- what the `c_style | forcecast` flags of molli::carray guarantee -- as a data
+// pointer plus up to three extents; unchecked<N>() / mutable_unchecked<N>() give row-major element access, as pybind11's accessors do
+// for contiguous data.  The result array's storage comes from the harness (shim_result_buffer).
+extern "C" void *shim_result_buffer(ssize_t n_elements, ssize_t element_size);
+namespace pybind11 {
+using ssize_t = ::ssize_t;
+struct module_ { template <class... A> void def(A...) {} };
+struct gil_scoped_release {};
+struct array { enum { c_style = 1, forcecast = 2 }; };
+struct shape_t { ssize_t a = 1, b = 1, c = 1; };
+template <class T, int F> struct array_t {
+    T *p; ssize_t shp[3];
+    array_t() : p(nullptr), shp{0, 0, 0} {}
+    array_t(T *data, ssize_t a, ssize_t b, ssize_t c) : p(data), shp{a, b, c} {}
+    array_t(shape_t s) : shp{s.a, s.b, s.c} { p = (T *)shim_result_buffer(s.a * s.b * s.c, sizeof(T)); }
+    ssize_t shape(int i) const { return shp[i]; }
+    template <int N> struct U {
+        T *p; ssize_t s1, s2;
+        const T *data(ssize_t i, ssize_t j) const { return p + i * s1 + j; }
+        const T *data(ssize_t i, ssize_t j, ssize_t k) const { return p + (i * s1 + j) * s2 + k; }
+        T &operator()(ssize_t i, ssize_t j) { return p[i * s1 + j]; }
+        T &operator()(ssize_t i, ssize_t j, ssize_t k) { return p[(i * s1 + j) * s2 + k]; }
+    };
+    template <int N> U<N> unchecked() const { return U<N>{p, shp[1], shp[2]}; }
+    template <int N> U<N> mutable_unchecked() { return U<N>{p, shp[1], shp[2]}; }
+};
 }
